@@ -23,7 +23,8 @@ RULE = ("lock-step differential against itertools.groupby: the same operation se
         "over 2..4 reflexive keys and random sequences up to length 15; key absent / def / async def (suspending); "
         "sources sync and async flavoured. non-trivial = a group was advanced after the groupby moved on, or partly "
         "consumed, or skipped; distinct = (input, key, ops)")
-RULE += (' Also: group handles closed (the twin stops using the group).')
+RULE += (' Also: group handles closed (the twin stops using the group); random histories in which the key function fails once '
+         'and the consumer carries on.')
 ASSUMPTIONS = ["itertools.groupby of the running interpreter is the reference", "keys with reflexive equality only"]
 EXHAUSTIVE_SUBSPACES = "all operation sequences starting with 'adv' of length <= 5 (thorough: 6) over {adv, g-1, g-2, g0} on 12 fixed inputs"
 EXHAUSTIVE = {"quick": False, "thorough": False}
@@ -53,8 +54,13 @@ def cases(tier, seed, shard, nshards):
             r = rng.random()
             ops.append("adv" if r < 0.35 else "g-1" if r < 0.72 else rng.choice(["g-2", "g0", "g-3"]) if r < 0.9
                        else rng.choice(["c-1", "c-1", "c-2", "c0"]))
-        yield {"keys": keys, "key": rng.choice([None, "half", "ahalf", "aident", "noneodd", "anoneodd", "tuple"]), "ops": ops,
-               "flav": rng.choice(["list", "async_gen", "async_class", "sync_iter"]), "susp": rng.choice([0, 0, 1])}
+        case = {"keys": keys, "key": rng.choice([None, "half", "ahalf", "aident", "noneodd", "anoneodd", "tuple"]), "ops": ops,
+                "flav": rng.choice(["list", "async_gen", "async_class", "sync_iter"]), "susp": rng.choice([0, 0, 1])}
+        if case["key"] is not None and keys and rng.random() < 0.12:
+            # the key function fails ONCE, for its k-th item, and the consumer carries on with the same operations:
+            # itertools.groupby drops the item whose key it could not compute; it must not turn up in any group
+            case["keyfault"] = [rng.randint(1, len(keys)), rng.choice(["ValueError", "KeyError", "TypeError", "Injected", "InjectedBase"])]
+        yield case
 
 
 def _key_impl(kname):
@@ -175,8 +181,16 @@ def run_case(case, stats: Counter, compare_log=True):
     keys = case["keys"]
     kname = case["key"]
     gen_flav = case["flav"].endswith("gen") or case["flav"] == "list"
-    ref_side = gb_side(case, True)
-    got_side = gb_side(case, False)
+    if "keyfault" in case:
+        from ..probes import FAULT_TYPES
+        from ..tools import Fault
+        use, exc = case["keyfault"]
+        ref_side = gb_side(case, True, fault=Fault("fn", 0, use, FAULT_TYPES[exc]("key failed"), "call"), cont=True)
+        got_side = gb_side(case, False, fault=Fault("fn", 0, use, FAULT_TYPES[exc]("key failed"), "call"), cont=True)
+        stats["histories_with_a_key_failing_once"] += 1
+    else:
+        ref_side = gb_side(case, True)
+        got_side = gb_side(case, False)
     ref, got = ref_side["results"], got_side["results"]
     stats["histories"] += 1
     stats["operations"] += len(case["ops"])
